@@ -233,3 +233,52 @@ Fixpoint sorted_by_arrival (l : list req) : bool :=
 (** the client echoes keys the indexer can resolve *)
 Definition well_behaved (r : req) : bool :=
   match r_beh r with RespondBadKey _ => false | _ => true end.
+
+(* ---- the account stream side of ExecutionManager::init ------------------------------------------ *)
+
+(** ExecutionManager::init hands the engine ONE stream:
+      merge(response channel, reconnecting account stream with backoff and reconnection events).
+    The account stream is re-initialised whenever it ends; a failed (re-)initialisation is
+    retried after a backoff sleep (ReconnectionState: sleep [cur], then cur := min(cur * mult, max);
+    reset to [initial] on success).  Each successful (re-)connection starts with the account
+    snapshot; each end of a connection is followed by a Reconnecting notice.
+    [sched]: for every connection that ends, (time it ends, number of failed re-initialisations
+    before the next one succeeds). *)
+Record policy := mkPolicy { p_initial : N; p_mult : N; p_max : N }.
+
+Inductive mevent :=
+| MOrder (e : event)            (* an item of the response channel *)
+| MSnapshot (t : N)             (* account snapshot of a (re-)connection established at t *)
+| MReconnecting (t : N).        (* the connection ended at t *)
+
+(** total time slept over [k] consecutive failed attempts, starting with backoff [cur] *)
+Fixpoint backoff_sum (pol : policy) (cur : N) (k : nat) : N :=
+  match k with
+  | O => 0
+  | S k' => cur + backoff_sum pol (N.min (cur * p_mult pol) (p_max pol)) k'
+  end.
+
+Fixpoint acct_events_from (pol : policy) (sched : list (N * N)) : list mevent :=
+  match sched with
+  | [] => []
+  | (t_end, fails) :: rest =>
+      MReconnecting t_end ::
+      MSnapshot (t_end + backoff_sum pol (p_initial pol) (N.to_nat fails)) ::
+      acct_events_from pol rest
+  end.
+
+Definition acct_events (pol : policy) (sched : list (N * N)) : list mevent :=
+  MSnapshot 0 :: acct_events_from pol sched.
+
+(** everything the merged stream carries while the manager runs: the manager's answers and the
+    account stream's items.  The two sides share no state: the in-flight sets are untouched by
+    account stream (re-)initialisation. *)
+Definition merged (m : mgr) (stop : option N) (script : list req) (pol : policy) (sched : list (N * N))
+  : list mevent :=
+  map MOrder (s_out (run_manager m stop script)) ++ acct_events pol sched.
+
+Definition orders_of (l : list mevent) : list event :=
+  flat_map (fun x => match x with MOrder e => [e] | _ => [] end) l.
+
+Definition notices_of (l : list mevent) : list N :=
+  flat_map (fun x => match x with MReconnecting t => [t] | _ => [] end) l.
